@@ -1253,6 +1253,13 @@ class Evaluator(object):
             self.emit('ctor', t, node, guards, fn, chain, callee=npath, args=args)
             return t
         t = ('call', npath, args, gargs)
+        if npath.endswith('VacantEntry::insert') and len(args) == 2 and args[0] is not None and args[0][0] == 'field' and args[0][2] == 'Vacant.0' \
+                and args[0][1] is not None and args[0][1][0] == 'call' and args[0][1][1].endswith('::entry') and len(args[0][1][2]) == 2:
+            # inserting through the vacant entry obtained for key k of map m is m.insert(k, v)
+            m_, k_ = args[0][1][2]
+            npath = args[0][1][1].rsplit('::', 1)[0] + '::insert'
+            args = (m_, k_, args[1])
+            t = ('call', npath, args, ())
         ce = canon_error_call(npath, args, getattr(self, 'error_has_source', lambda v: False))
         if ce is not None:
             t = ce
